@@ -920,6 +920,21 @@ fn main() {
         handle.join().unwrap();
         return;
     }
+    if let Some(dir) = arg("--files") {
+        // run DIR/main.aelys the way `aelys run` does (imports resolved next to it); one line: class, escaped output, detail
+        let path = std::path::Path::new(&dir).join("main.aelys");
+        aelys_runtime::verif::sink_install();
+        aelys_runtime::verif::budget_set(3_000_000);
+        let res = guarded(std::panic::AssertUnwindSafe(|| {
+            let v = aelys_driver::run_file_with_config_and_opt(&path, Default::default(), Vec::new(), opt_level(opt))?;
+            Ok((v, String::new()))
+        }));
+        let o = aelys_runtime::verif::sink_take();
+        aelys_runtime::verif::budget_set(u64::MAX);
+        let out = classify(res, o);
+        println!("0\t{}\t{}\t{}", out.class, esc(&out.output), esc(&out.detail).chars().take(200).collect::<String>());
+        return;
+    }
     let seed = arg_u64("--seed", 0);
     let n = arg_u64("--n", 200);
     let handle = std::thread::Builder::new().stack_size(256 << 20).spawn(move || {
